@@ -157,7 +157,11 @@ func worker(w *runner.W) {
 		return
 	}
 	// part 3: HISTORY: one compiled expression over the whole tuple list
-	runHistoryFamily(w, b, e, only, &caseNo)
+	if !runHistoryFamily(w, b, e, only, &caseNo) {
+		return
+	}
+	// part 4: DELIVERY of a lookup table through a pipe; LOAD-HISTORY
+	runDeliveryFamily(w, b, only, &caseNo)
 }
 
 var sampled int // samples taken by this worker (spreads the samples over the families)
@@ -218,6 +222,9 @@ func replay(w *runner.W, raw json.RawMessage) {
 	case "history", "history-kept":
 		replayHistory(w, b, c)
 		return
+	case "delivery", "load-history":
+		replayDelivery(w, b, c)
+		return
 	}
 	r := b.runCase(c)
 	c.Template, c.Groups = r.tmpl, r.groups
@@ -249,7 +256,9 @@ func rule(prop, tier string) string {
 		sb.WriteString(sh.name + " [" + strings.Join(fns, ",") + "]: " + sh.what)
 	}
 	sb.WriteString(" (a number-of-decimals argument longer than 4 digits is not executed). ")
-	sb.WriteString("HISTORY family: for every helper x arity of the tuple families x argument style {every argument from a group; documented literals as constants and the rest from groups; first argument from a group and the rest constants} x optimiser {on, off}, the template is compiled ONCE per distinct constant part and that one compiled expression is evaluated over the helper's whole tuple list forward, in reverse order, alternately on neighbouring tuples (A,B,A,B) and alternately on tuples i and n-1-i; every result must equal what a fresh compilation of the same template returns for that tuple alone (signature C11/<helper>/value-depends-on-earlier-evaluations), and the strings returned by the forward pass must still read the same after all later evaluations (C11/<helper>/returned-value-changed-by-later-evaluations). non-trivial = compiled without error, the helper returned a value that is not an error marker, and the documentation pins the answer for that input (accept-anything inputs such as bucket size <= 0, negative substr positions, NaN, dot paths are executed for panics only and counted as trivial); a HISTORY evaluation is non-trivial when the fresh result it must equal is not an error marker")
+	sb.WriteString("HISTORY family: for every helper x arity of the tuple families x argument style {every argument from a group; documented literals as constants and the rest from groups; first argument from a group and the rest constants} x optimiser {on, off}, the template is compiled ONCE per distinct constant part and that one compiled expression is evaluated over the helper's whole tuple list forward, in reverse order, alternately on neighbouring tuples (A,B,A,B) and alternately on tuples i and n-1-i; every result must equal what a fresh compilation of the same template returns for that tuple alone (signature C11/<helper>/value-depends-on-earlier-evaluations), and the strings returned by the forward pass must still read the same after all later evaluations (C11/<helper>/returned-value-changed-by-later-evaluations). non-trivial = compiled without error, the helper returned a value that is not an error marker, and the documentation pins the answer for that input (accept-anything inputs such as bucket size <= 0, negative substr positions, NaN, dot paths are executed for panics only and counted as trivial); a HISTORY evaluation is non-trivial when the fresh result it must equal is not an error marker. ")
+	sb.WriteString(deliveryRule(quick))
+	sb.WriteString("; a DELIVERY evaluation is non-trivial when the pipe delivery compiled without error and the pinned value is not an error marker; a LOAD-HISTORY compilation is non-trivial when it returned the text of a readable file")
 	return sb.String()
 }
 
@@ -266,6 +275,8 @@ func main() {
 				"match groups are supplied through expressions.KeyBuilderContextArray; a constant is written quoted/escaped so that it reaches the helper verbatim (self-tested per constant with an identity helper)",
 				"int64 wrap-around of sumi/subi/multi, NaN/Inf results, dynamic values for arguments documented as literals, and inputs the documentation does not describe are accepted, not judged",
 				"history independence is checked on one goroutine and against a fresh compilation by the same long-lived KeyBuilder (funclib registry); a compiled expression is probed once on an empty match by the optimiser before its first evaluation, in the fresh compilation as well",
+				"DELIVERY family: the documentation of {load} speaks of a filename and of its text, not of how the bytes arrive, so a named pipe holding the same bytes is expected to load identically; only fifos made by syscall.Mkfifo in a private scratch directory are used (no read errors, no file that grows while it is read); pieces are separated by observing FIONREAD == 0 on the pipe, never by sleeping; every {load} template names the pipe once (one compilation = one open = one delivery); a compilation that has not returned after 60 s is reported as a hang and its writer released by opening the pipe O_RDONLY|O_NONBLOCK and draining it",
+				"LOAD-HISTORY family: every history uses file names never used before in the process; whether a later compilation sees a file created / rewritten / removed after an earlier compilation of the same name is not documented (`static content`): both answers are accepted; the file-without-read-permission histories are not executed when the harness runs as root",
 				"SIZE sweeps stop at the cap of the tier; between the swept sizes (71..126, 130..254, ...) only the tuple families' values are covered",
 			}
 		},
